@@ -244,6 +244,17 @@ func planBoundary(rng *rand.Rand, j int) (*params.ChainConfig, *boundaryPlan, st
 	default:
 		pressure = "blob-fee-above-reserve" // blob base fee of 1e7..1e10 wei
 		blobsExcess = old.UpdateFraction * uint64(17+rng.Intn(7)) / params.BlobTxBlobGasPerBlob
+		// Domain restriction: the blob base fee e^(excess/updateFraction) must stay far below 2^256
+		// under every schedule of the chain. (With excess/updateFraction > ~177 - only reachable from
+		// a hostile genesis followed by a much smaller update fraction - miner.fillTransactions
+		// panics in uint256.MustFromBig(CalcBlobFee); that is not the subject of this property.)
+		for _, s := range b.stages {
+			if lim := s.blob; lim != nil && !s.future {
+				if m := lim.UpdateFraction * 80 / params.BlobTxBlobGasPerBlob; blobsExcess > m {
+					blobsExcess = m
+				}
+			}
+		}
 	}
 	b.genesisExcess = blobsExcess * params.BlobTxBlobGasPerBlob
 	if rng.Intn(2) == 0 {
